@@ -99,7 +99,8 @@ SumPool == <<
     S(" ", <<"x" \o SymE4 \o SymB8, SymFF \o " y " \o SymNUL>>),  \* truncated multi-byte sequence, NUL
     S(" ", <<"Lunch  ">>),                            \* blanks at the end of the text belong to it
     S(" ", <<"two", "lines" \o TAB>>),
-    S(" ", <<"nbsp" \o NBSP>>)
+    S(" ", <<"nbsp" \o NBSP>>),
+    S(" ", <<"replacement " \o RCHAR \o " character", "and " \o RCHAR \o " again">>)    \* a literal U+FFFD is ordinary text
 >>
 
 RecSumPool == <<
@@ -277,6 +278,10 @@ SecondOpen(d, ls, i) ==
              fix == IF l.eol = "" THEN [ls EXCEPT ![i].eol = r.eol] ELSE ls
          IN  {Mut(InsertAt(fix, i + 1, L(r.ind \o q, r.eol, "entry", l.rec)), i + 1, "second-open-range")
                 : q \in {"10:00 - ?", "10:00-?? again"}}
+             (* ... whose summary goes on for two more lines: the fault is on the entry line *)
+             \cup {Mut(InsertAt(InsertAt(InsertAt(fix, i + 1, L(r.ind \o "10:00 - ? second", r.eol, "entry", l.rec)),
+                                          i + 2, L(r.ind \o r.ind \o "goes on", r.eol, "cont", l.rec)),
+                                 i + 3, L(r.ind \o r.ind \o "#42", r.eol, "cont", l.rec)), i + 1, "second-open-range")}
     ELSE {}
 
 Mutations(d) ==
